@@ -64,9 +64,9 @@ META["C09"] = dict(
     technique="Lean 4 termination-bound and quiescence proofs + wake-driven differential correspondence",
 )
 META["C16"] = dict(
-    text="Lean 4 theorems: after close a poll from any state finishes or is blocked on a pending subscriber sink (c16_pubsub_closed_outcome), with subscribers able to accept data it finishes within work(s)+1 iterations (c16_pubsub_finishes), and at completion everything taken from a publisher is handed over and flushed (c16_pubsub_finishes_flushed); the real Topic's channel is closed in many states and compared with the model; server level: a real server sent SIGINT in a process of its own with peers in eight states must return from listen()",
+    text="Lean 4 theorems: after close a poll from any state finishes or is blocked on a pending subscriber sink (c16_pubsub_closed_outcome), with subscribers able to accept data it finishes within work(s)+1 iterations (c16_pubsub_finishes), and at completion everything taken from a publisher is handed over and flushed (c16_pubsub_finishes_flushed), and it takes nothing more from any publisher / requestor / replier stream once closed, however much they still hold (c16_pubsub_closed_takes_nothing_more, c16_reqrep_closed_takes_nothing_more); same outcome theorem for the request/reply router (c16_reqrep_closed_outcome); the real Topic's channel is closed in many states and compared with the model; server level: a real server sent SIGINT in a process of its own with peers in eight states must return from listen()",
     design_ref="DESIGN.md section 6, C16",
-    note="pub/sub half; request/reply half in the second part of Props/C16.lean when present",
+    note="the request/reply router drops a reply it still holds at shutdown (judged outside the statement, which speaks of publishers' messages: DESIGN.md section 8)",
     technique="Lean 4 proof over hand model + differential correspondence",
 )
 
